@@ -177,6 +177,13 @@ fn gen_expr(c: &mut Ctx, tier: Tier) -> Option<String> {
     })
 }
 
+/// one embedded source per execution (shared with C15)
+pub fn gen_source(c: &mut Ctx, tier: Tier) -> Option<String> {
+    let e = gen_expr(c, tier)?;
+    let emb = if tier == Tier::Thorough { c.choose(EMBEDDINGS.len(), "embedding") } else { c.choose(4, "embedding") };
+    Some(EMBEDDINGS[emb].replace('§', &e))
+}
+
 const EMBEDDINGS: &[&str] = &[
     "let v = §",
     "from t | derive {v = §}",
@@ -412,11 +419,7 @@ fn float_printed_as_int(b: &Bad) -> bool {
 pub fn run(tier: Tier) -> i32 {
     let mut run = Run::new("C14", tier);
     // expression sources × embeddings
-    let (cases, st) = engine::collect(0, |c| {
-        let e = gen_expr(c, tier)?;
-        let emb = if tier == Tier::Thorough { c.choose(EMBEDDINGS.len(), "embedding") } else { c.choose(4, "embedding") };
-        Some(EMBEDDINGS[emb].replace('§', &e))
-    });
+    let (cases, st) = engine::collect(0, |c| gen_source(c, tier));
     let mut sources: Vec<(String, J)> = cases.into_iter().map(|(s, ch)| (s, json!({"driver":"EX","choices": ch}))).collect();
     for s in STATEMENTS {
         sources.push((s.to_string(), json!({"driver":"statement"})));
